@@ -469,7 +469,7 @@ def check(case, ctx):
     ops = [('reverse', lambda a: a.reverse()), ('sort', lambda a: a.sort_residues()), ('shuffle', lambda a: a.shuffle(seed=2))]
     if not has_iv:
         ops.append(('shift', lambda a: a.shift(1)))
-    ops += [(f'slice({i},{j})', (lambda a, i=i, j=j: a.slice(i, j))) for i, j in ((0, n - 1), (1, n), (1, n - 1))
+    ops += [(f'slice({i},{j})', (lambda a, i=i, j=j: a.slice(i, j))) for i, j in ((0, n - 1), (1, n), (1, n - 1), (0, n))
             if 0 <= i < j <= n and not cuts_inside(P, i, j)]
     for name, op in ops:
         for inplace in (False, True):
@@ -498,6 +498,22 @@ def check(case, ctx):
             nops += 1
             if st_r != 'ok':
                 continue       # reported by the clauses above
+            if not inplace:
+                # the result is a new peptide: editing it (explicit editors) leaves the source as it was
+                st_b, before = lib.call(a.serialize)
+                st_k, keep = lib.call(r.serialize)
+                lib.call(r.add_internal_mod, 0, 'Methyl')
+                lib.call(r.add_nterm_mods, 'Formyl')
+                if len(r) >= 2:
+                    lib.call(lambda: r.slice(1, len(r), inplace=True))
+                st_a, after = lib.call(a.serialize)
+                if (st_b, before) != (st_a, after):
+                    ctx.fail('result-shares-state-with-source', before, after, op=name, text=s,
+                             note='the result of the operation was edited in place (add_internal_mod, add_nterm_mods, slice inplace)')
+                    break
+                st_r, r = lib.call(op, a)      # a fresh result for the clause below
+                if st_r != 'ok':
+                    continue
             st_t, text = lib.call(r.serialize)
             st_f, fresh = lib.call(p.parse, text) if st_t == 'ok' else ('err', None)
             if st_f != 'ok':
